@@ -683,7 +683,7 @@ Definition ftp_cmd (v6 : bool) (dial : dialmode) (s : ftp_st) (line : bytes) : f
              else if v6 then (FGo (open_passive dial s), 1%N)
              else (FGo s, 1%N)                                  (* no ':' in the address: 425 *)
   (* PORT: strings.Split(param, ","), nums[4] and nums[5] without a length check: fewer than six
-     fields panic (recovered by server.handle; ftp's own Conn.Close() is not reached).  A
+     fields panic (recovered by server.handle; the deferred ftpConn.Close() of Handle runs).  A
      well-formed PORT dials out: outside the model. *)
   | FPort => if isnil p then (FGo s, 1%N)                      (* 553 *)
              else if negb (f_user s) then (FGo s, 1%N)         (* 530 *)
@@ -723,27 +723,23 @@ Fixpoint ftp_loop (fuel : nat) (v6 : bool) (dial : dialmode) (s : ftp_st) (b : b
           match st with
           | FGo s' => ftp_loop f v6 dial s' b2
           | FClosed s' => (Returned, s', b2)
-          | FPanic s' => (Panicked, s', b2)
+          | FPanic s' => (Panicked, close_data s', b2)         (* Handle: defer ftpConn.Close() *)
           | FOut => (Unmodelled, s, b2)
           end
       | RsOk _ _ b1 => (Returned, close_data s, b1)            (* Serve: break; conn.Close() *)
       end
   end.
 
-(* Handle: recv := make(chan string); defer close(recv); go func() { for msg := range recv ... }() *)
+(* Handle: recv := make(chan string); defer close(recv); ...; defer ftpConn.Close(); go func() { for msg := range recv ... }() *)
 Definition ftp_init : ftp_st := mkF false [] DNone 1 0 0 0.
 
 (* when Handle is over (also by a panic: the deferred close(recv) runs) the pump ends *)
 Definition ftp_res (s : ftp_st) : res :=
   mkRes (f_gor s - 1) (f_lis s) (f_lis s + f_dconns s).
 
-(* what a recovered panic leaves behind is an unconnected passive socket: its Accept deadline
-   ends the goroutine, which closes the listener *)
-Definition ftp_late (o : outcome) (s : ftp_st) : res :=
-  match o, f_data s with
-  | Panicked, DPassive DialNone => mkRes 1 1 1
-  | _, _ => res0
-  end.
+(* nothing sits on a timer of its own any more: Handle defers ftpConn.Close(), so a session
+   that ends in a recovered panic closes its data socket like any other *)
+Definition ftp_late (o : outcome) (s : ftp_st) : res := res0.
 
 Definition handle_ftp_st (v6 : bool) (dial : dialmode) (fuel : nat) (c : conn) : outcome * ftp_st * brd :=
   ftp_loop fuel v6 dial ftp_init (bswrite (new_reader c)).       (* 220 banner *)
